@@ -1,3 +1,209 @@
 import LocustModel.Proto
-/- Driver stub for C07 (replaced when the property's model is built). -/
-def main : IO Unit := LM.Proto.runDriver fun _ => "?\t?"
+import LocustModel.Codec.Decode2
+import LocustModel.Codec.Rebuild
+import LocustModel.Store.C07Machine
+/-
+  Driver for C07.  Input lines (harness/src/bin/c07.rs):
+
+    dec  <ops> <nsec> <sec0> … <sec{n-1}> <orig0|-> <pushed cells>
+    raw  <ops> <nsec> <sec0> … <sec{n-1}> <orig0|-> <pushed cells>
+         ops : comma separated  N | A:<w>:<int> | D:<t> | I:<w> | P:<i> | L:<w> | Z:<t>:<n> | C:<t>:<n>:<0|1> | U | H:<0|1>:<total>
+         sec : u8:x<hex> | bv:x<hex> | lz4:x<hex> | pco:x<hex> | u16:<nats> | u32:… | u64:… | i64:<ints> | f64:<hex16,…> | null:<n>
+         orig0 : the section the lz4/pco library returns for section 0 (the driver's `dec`)
+       output `dec`:  <decode2: type + cells> TAB <decodeQ: type + cells> [TAB finding]
+       output `raw`:  <decode2: type + raw data + null map> TAB SKIP
+    reb  <k> <val_1> … <val_k>        decoded values pushed by the compaction loop into one ColumnBuffer
+         val : I64|<ints>|- , NI64|<ints>|x<hex> , F64|…, NF64|…, Str|<x..>,…|-, NStr|…|x<hex>, Null|<n>|-
+       output:  <cells of the rebuilt buffer (model of the push_* sequence)> TAB <concatenated cells (spec)> [TAB finding]
+    hist <history>                    see LocustModel/Store/C07Machine.lean (`parseHist`)
+-/
+namespace LM.DrvC07
+open LM LM.Proto LM.Codec LM.D2
+
+def parseWidth (s : String) : Option Width :=
+  if s = "u8" then some .u8 else if s = "u16" then some .u16 else if s = "u32" then some .u32
+  else if s = "u64" then some .u64 else none
+
+def parseEnc (s : String) : Option Enc :=
+  if s = "i64" then some .i64 else (parseWidth s).map .w
+
+def parseET (s : String) : Option ET :=
+  if s = "u8" then some .u8 else if s = "u16" then some .u16 else if s = "u32" then some .u32
+  else if s = "u64" then some .u64 else if s = "i64" then some .i64 else if s = "f64" then some .f64 else none
+
+def parseOp (s : String) : Option Op :=
+  match s.splitOn ":" with
+  | ["N"] => some .nullable
+  | ["A", t, v] => do let w ← parseWidth t; let x ← v.toInt?; pure (.add w x)
+  | ["D", t] => (parseEnc t).map .delta
+  | ["I", t] => (parseWidth t).map .toI64
+  | ["P", i] => i.toNat?.map .push
+  | ["L", t] => (parseWidth t).map .dict
+  | ["Z", t, n] => do let e ← parseET t; let k ← n.toNat?; pure (.lz4 e k)
+  | ["C", t, n, fp] => do let e ← parseET t; let k ← n.toNat?; pure (.pco e k (fp = "1"))
+  | ["U"] => some .unpack
+  | ["H", u, total] => do let k ← total.toNat?; pure (.unhex (u = "1") k)
+  | _ => none
+
+def hexNatAux : List Char → Nat → Option Nat
+  | [], acc => some acc
+  | c :: cs, acc => (hexDigit? c).bind fun d => hexNatAux cs (acc * 16 + d)
+def parseHexNat (s : String) : Option Nat := if s.isEmpty then none else hexNatAux s.toList 0
+
+def parseBytesNat (s : String) : Option (List Nat) := (parseHexBytes? s).map (·.map UInt8.toNat)
+
+def parseSec (s : String) : Option Section :=
+  match s.splitOn ":" with
+  | ["u8", d] => (parseBytesNat d).map (.nat .u8)
+  | ["bv", d] => (parseBytesNat d).map .bitvec
+  | ["lz4", d] => (parseBytesNat d).map (.comp · 0)
+  | ["pco", d] => (parseBytesNat d).map (.comp · 1)
+  | ["u16", d] => (parseList parseNat? d).map (.nat .u16)
+  | ["u32", d] => (parseList parseNat? d).map (.nat .u32)
+  | ["u64", d] => (parseList parseNat? d).map (.nat .u64)
+  | ["i64", d] => (parseList parseInt? d).map .i64
+  | ["f64", d] => (parseList parseHexNat d).map .f64
+  | ["null", n] => n.toNat?.map .null
+  | _ => none
+
+def hex16 (n : Nat) : String :=
+  String.ofList ((List.range 16).reverse.map fun i => hexChar ((n / 16 ^ i) % 16))
+
+def showBytesNat (bs : List Nat) : String := showHexBytes (bs.map UInt8.ofNat)
+
+def showCell : Cell → String
+  | .null => "_"
+  | .int i => "i" ++ toString i
+  | .float b => "f" ++ hex16 b
+  | .str s => showHexBytes s
+
+def parseCell (s : String) : Option Cell :=
+  if s = "_" then some .null else
+  match s.toList with
+  | 'i' :: r => (String.ofList r).toInt?.map .int
+  | 'f' :: r => (parseHexNat (String.ofList r)).map .float
+  | 'x' :: _ => (parseHexBytes? s).map .str
+  | _ => none
+
+/-- `Data::get_type()` as the harness prints it. -/
+def tyName (v : SVal) : String :=
+  let n := v.present.isSome
+  match v.data with
+  | .i64 _ => if n then "NI64" else "I64"
+  | .f64 _ => if n then "NF64" else "F64"
+  | .str _ => if n then "NStr" else "Str"
+  | .null _ => "Null"
+  | .nat w _ => (if n then "TNullable" else "T") ++ (match w with | .u8 => "U8" | .u16 => "U16" | .u32 => "U32" | .u64 => "U64")
+  | .bits _ => if n then "TNullableU8" else "TU8"
+  | .raw _ => if n then "TNullableU8" else "TU8"
+
+def dataLen : Data → Nat
+  | .nat _ d => d.length | .i64 d => d.length | .f64 d => d.length | .str d => d.length
+  | .bits d => d.length | .null n => n | .raw (.comp p _) => p.length | .raw _ => 0
+
+def showVal (r : Except Fault SVal) : String :=
+  match r with
+  | .error _ => "panic"
+  | .ok v =>
+    match v.data with
+    | .i64 _ | .f64 _ | .str _ | .null _ => tyName v ++ " " ++ showList showCell (cellsOf v)
+    | d => tyName v ++ " " ++ toString (dataLen d)
+
+def showRaw (r : Except Fault SVal) : String :=
+  match r with
+  | .error _ => "panic"
+  | .ok v =>
+    let pm := match v.present with | some bm => showBytesNat bm | none => "-"
+    match v.data with
+    | .i64 d => tyName v ++ " " ++ showList toString d ++ " " ++ pm
+    | .f64 d => tyName v ++ " " ++ showList hex16 d ++ " " ++ pm
+    | .str d => tyName v ++ " " ++ showList showHexBytes d ++ " " ++ pm
+    | .null n => s!"Null {n} -"
+    | d => tyName v ++ " " ++ toString (dataLen d)
+
+/-- which open finding about the free `decode` covers this column image (classifiers: `LM.D2`) -/
+def classifyCol (ops : List Op) : String :=
+  if hasUnhex ops then "compaction-hexpacked-todo"
+  else if lz4Narrow ops then "compaction-decode-lz4-narrow-type"
+  else if unpackCompressed ops then "compaction-decode-unpack-section0"
+  else if elementwiseAfterNullable ops then "compaction-decode-nullmap-dropped"
+  else ""
+
+def parseCol (toks : List String) : Option (Col × (Section → Section) × List Cell) :=
+  match toks with
+  | opsT :: nT :: rest => do
+      let ops ← parseList parseOp opsT
+      let n ← nT.toNat?
+      if rest.length < n + 2 then none
+      let secs ← (rest.take n).mapM parseSec
+      let origT := rest.getD n "-"
+      let pushedT := rest.getD (n + 1) "[]"
+      let pushed ← parseList parseCell pushedT
+      let dec : Section → Section ←
+        if origT = "-" then pure (fun s => s) else do
+          let o ← parseSec origT
+          let s0 ← secs.head?
+          pure (fun s => if s = s0 then o else s)
+      pure (⟨pushed.length, ops, secs⟩, dec, pushed)
+  | _ => none
+
+def stepDec (raw : Bool) (toks : List String) : String :=
+  match parseCol toks with
+  | none => "bad-op\tbad-op"
+  | some (c, dec, pushed) =>
+    let m := decode2 dec c
+    let q := decodeQ dec c
+    if raw then showRaw m ++ "\tSKIP"
+    else
+      -- C01 says the query path returns what was pushed; if the spec model disagrees with the cells the harness
+      -- pushed, the specification model itself is not validated: make that visible as a correspondence break.
+      let qcells : Option (List Cell) := match q with | .ok v => some (cellsOf v) | .error _ => none
+      let mtxt := if !builderShape c.ops then "NOT-A-BUILDER-SHAPE " ++ showVal m
+        else if qcells = some pushed then showVal m else "SPEC-MODEL-DIFFERS-FROM-PUSHED " ++ showVal q
+      let k := classifyCol c.ops
+      mtxt ++ "\t" ++ showVal q ++ (if k = "" then "" else "\t" ++ k)
+
+/-! `reb` lines -/
+
+def parseVal (s : String) : Option SVal :=
+  match s.splitOn "|" with
+  | [ty, d, pm] => do
+      let present : Option (List Nat) ← if pm = "-" then pure none else (parseBytesNat pm).map some
+      if ty = "I64" || ty = "NI64" then (parseList parseInt? d).map fun x => ⟨.i64 x, present⟩
+      else if ty = "F64" || ty = "NF64" then (parseList parseHexNat d).map fun x => ⟨.f64 x, present⟩
+      else if ty = "Str" || ty = "NStr" then (parseList parseHexBytes? d).map fun x => ⟨.str x, present⟩
+      else if ty = "Null" then d.toNat?.map fun n => ⟨.null n, none⟩
+      else none
+  | _ => none
+
+open LM.Rebuild in
+def stepReb (raw : Bool) (toks : List String) : String :=
+  match toks with
+  | _ :: vals =>
+    match vals.mapM parseVal with
+    | none => "bad-op\tbad-op"
+    | some vs =>
+      match pushAll {} vs with
+      | .error _ => "panic\tpanic"
+      | .ok b =>
+        if raw then
+          let kind := match b.kind with | .empty => "Empty" | .int => "Int" | .float => "Float" | .str => "String" | .other => "Mixed"
+          s!"{kind} {b.length} " ++ (match b.present with | some p => showBytesNat p | none => "-") ++ "\tSKIP"
+        else
+          let spec := vs.flatMap cellsOf
+          let k := if dropsNullMap {} vs then "\tcompaction-builder-nullmap-dropped" else ""
+          s!"{b.length} " ++ showList showCell b.cells ++ "\t" ++ s!"{spec.length} " ++ showList showCell spec ++ k
+  | _ => "bad-op\tbad-op"
+
+def step (line : String) : String :=
+  match splitTokens line with
+  | "dec" :: rest => stepDec false rest
+  | "raw" :: rest => stepDec true rest
+  | "reb" :: rest => stepReb false rest
+  | "rebraw" :: rest => stepReb true rest
+  | "hist" :: rest => LM.C07M.stepHist rest
+  | _ => "bad-op\tbad-op"
+
+end LM.DrvC07
+
+def main : IO Unit := LM.Proto.runDriver LM.DrvC07.step
